@@ -225,6 +225,7 @@ fn deliver_corrupted(cx: &mut Cx, s: u64, f: Presentation, l: usize, issuer: Nod
     // splice: insert / remove a response scalar in the middle (U changes)
     if u > 0 { let mut g = f.clone(); g.proof.drain(240..272); deliver(cx, verifier, g, "proof_drop_response".into(), ideal.clone()); }
     { let mut g = f.clone(); let ins = f.proof[144..176].to_vec(); let at = 240; g.proof.splice(at..at, ins); deliver(cx, verifier, g, "proof_insert_response".into(), ideal.clone()); }
+    for k in [1usize, 31, 33] { let mut g = f.clone(); g.proof.extend(std::iter::repeat(0u8).take(k)); deliver(cx, verifier, g, format!("proof_followed_by_{k}_octets"), ideal.clone()); }
     // (3) disclosed data: every single-element fault of the message list; index corruption;
     //     consistent edits of (index, message) pairs
     let r = lnorm(&f.dmsgs).len();
